@@ -328,6 +328,33 @@ def _py_kernel(name, args):
                 r = _val(lambda: mixed_mod.optimal_steps_mixed(n, s))
                 out.append(f"{n} {s} " + ("raise" if isinstance(r, str) else str(int(r))))
         return out
+    if name == "argmin":
+        vals = [float("inf") if v == "inf" else v for v in args]
+        try:
+            return [str(int(bf.argmin(list(vals))))]
+        except Exception:
+            return ["raise"]
+    if name == "bands":
+        # one process, many distinct keys of the three cached kernels: the cheap bands (few units; nearly as many
+        # units as steps) up to a large n, low band first, then high, then low again -- answers must not depend on
+        # what else the cache holds (key collisions, clamping at large sizes)
+        (nmax,) = args
+        fns = (("HS", mixed_mod.mixed_step_memoization), ("HM", mixed_mod.optimal_steps_mixed),
+               ("HE", ms.optimal_extra_steps))
+        keys = [(n, s_) for n in range(1, nmax + 1) for s_ in range(1, 5)]
+        keys += [(n, s_) for n in range(1, nmax + 1) for s_ in range(max(n - 6, 0), n + 2)]
+        keys += [(n, s_) for n in range(1, nmax + 1) for s_ in range(1, 5)]
+        out = []
+        for tag, f in fns:
+            for n, s_ in keys:
+                r = _val(lambda: f(n, s_))
+                if isinstance(r, str):
+                    out.append(f"{tag} {n} {s_} raise")
+                elif isinstance(r, tuple):
+                    out.append(f"{tag} {n} {s_} " + " ".join(str(int(v)) for v in r))
+                else:
+                    out.append(f"{tag} {n} {s_} {int(r)}")
+        return out
     if name == "tab":
         n, s = args
         try:
@@ -384,7 +411,7 @@ def _py_kernel(name, args):
                 seq = pdr.periodic_disk_revolve(n - 1, a, wd, rd, uf, ub)
             else:
                 seq = hr.hrevolve(n - 1, (a, int(w[3])), [0, wd], [0, rd], uf, ub)
-            return [repr(list(seq))]
+            return [repr(list(seq)), "makespan " + _num(seq.makespan)]
         except Exception:
             return ["raise"]
     if name == "action_api":
@@ -489,3 +516,64 @@ def multi_history(task):
                     ca = canon_action(a)
                     out[i].append("A " + ca if ca else "B badaction")
     return [out[i] for i in range(len(objs))]
+
+
+def proc_history(lines):
+    """C15, process level: replay one interleaved history (the `proc` line syntax of the Lean driver) on the
+    real library, in THIS interpreter with whatever the module-global memo tables hold from earlier tasks.
+    C <class spec> | N i | F i n | O i | U i R|D|W|N | HE n s | HM n s | HS n s"""
+    import checkpoint_schedules.multistage as ms_mod
+    objs = []
+    out = []
+    buf = io.StringIO()
+    STK = {"R": ST.RAM, "D": ST.DISK, "W": ST.WORK, "N": ST.NONE}
+    with contextlib.redirect_stdout(buf):
+        for ln in lines:
+            w = ln.split()
+            if w[0] == "C":
+                spec = " ".join(w[1:])
+                try:
+                    with forced_numba(spec):
+                        objs.append((parse_spec(spec)(), spec))
+                    out.append("C ok")
+                except Exception:
+                    objs.append((None, spec))
+                    out.append("C X")
+            elif w[0] in ("N", "F", "O", "U"):
+                i = int(w[1])
+                o, spec = objs[i] if i < len(objs) else (None, "")
+                if o is None:
+                    out.append("?obj")
+                    continue
+                if w[0] == "N":
+                    try:
+                        with forced_numba(spec):
+                            a = next(o)
+                        ca = canon_action(a)
+                        out.append(("A " + ca if ca else "B") + " | " + flags(o))
+                    except StopIteration:
+                        out.append("S")
+                    except Exception:
+                        out.append("B")
+                elif w[0] == "F":
+                    try:
+                        o.finalize(int(w[2]))
+                        out.append("f ok")
+                    except Exception as e:
+                        out.append("f " + exc_name(e))
+                elif w[0] == "O":
+                    out.append("O " + flags(o))
+                else:
+                    try:
+                        out.append("U " + str(int(bool(o.uses_storage_type(STK[w[2]])))))
+                    except Exception:
+                        out.append("U x")
+            else:
+                f = {"HE": ms_mod.optimal_extra_steps, "HM": mixed_mod.optimal_steps_mixed,
+                     "HS": mixed_mod.mixed_step_memoization}[w[0]]
+                try:
+                    r = f(int(w[1]), int(w[2]))
+                    out.append("H " + (" ".join(str(int(x)) for x in r) if isinstance(r, tuple) else str(int(r))))
+                except Exception:
+                    out.append("H raise")
+    return out
